@@ -638,3 +638,26 @@ where
         f();
     }
 }
+
+#[cfg(feature = "verif-hooks")]
+pub(crate) mod verif_local {
+    use super::*;
+
+    /// (line, kind, is_comment, is_string) of one diagnostic.
+    pub(crate) fn error_fields(e: &FormattingError) -> (usize, &ErrorKind, bool, bool) {
+        (e.line, &e.kind, e.is_comment, e.is_string)
+    }
+
+    /// Runs `format_lines` on `text` and returns the (possibly truncated) text and the report.
+    pub(crate) fn run_format_lines(
+        text: &str,
+        name: &FileName,
+        skipped_range: &[(usize, usize)],
+        config: &Config,
+    ) -> (String, FormatReport) {
+        let mut text = text.to_owned();
+        let report = FormatReport::new();
+        format_lines(&mut text, name, skipped_range, config, &report);
+        (text, report)
+    }
+}
